@@ -139,3 +139,12 @@ chk("C03",
     "Value lane trusts NumPy's object loops as the model of its float loops (real arithmetic). Dtype lane relies on NEP 50 (dtypes do "
     "not depend on values). Known finding: the x**1 / x**2 shortcut on int/bool tensors with float/bool exponents.",
     "symbolic execution differential against NumPy on shared symbolic arrays + SMT equality; enumeration for dtype facts", "DESIGN §3 C03")
+chk("C11",
+    "One case per entry of the ufunc registry (37, read at run time) and per listed NumPy override (29): all spellings of the operation - "
+    "mygrad function, NumPy function/ufunc applied to tensors, Tensor method, operator incl. reflected and augmented forms, out=Tensor, "
+    "where=+out=, Python-scalar operand, pow special cases - run on the same symbolic operands; shapes and constant flags must agree and "
+    "z3 decides for all real inputs and all seeds that result terms and operand gradients after backward(g) agree. The non-differentiable "
+    "registries are executed directly: boolean ufuncs / no-diff functions / comparison operators return plain arrays equal to NumPy's and "
+    "record nothing; every const-only (rounding/modulo) ufunc raises ValueError on any non-constant operand and matches NumPy on constants.",
+    "dtype equality across spellings is compared with floats in the replay and in C03's dtype lane; reduce/accumulate/outer ufunc methods are outside.",
+    "symbolic execution of all spellings on shared symbolic operands + SMT equality of values and gradients", "DESIGN §3 C11")
